@@ -27,7 +27,7 @@ M("smooth-quad-no-reflect-chain", ["C01", "C17"], "T after T uses current point"
   ("            control1 = self._smooth_point_of(QuadraticBezier)", "            control1 = self._smooth_point_of(QuadraticBezier) if not self._segments[-1].smooth else self.current_point"))
 M("move-extra-pairs-as-moves", ["C01"], "extra pairs after M become moves",
   ("                while self._more():\n                    coord = self._coord()\n                    self.parser.line(coord, relative=False)", "                while self._more():\n                    coord = self._coord()\n                    self.parser.move(coord, relative=False)"))
-M("copy-drops-relative", ["C17", "C07"], "Linear.__copy__ loses the relative flag",
+M("copy-drops-relative", ["C17"], "Linear.__copy__ loses the relative flag",
   ("        return self.__class__(self.start, self.end, relative=self.relative)", "        return self.__class__(self.start, self.end)"))
 M("smooth-point-after-copy", ["C17"], "QuadraticBezier copy loses smooth flag",
   ("            self.end,\n            relative=self.relative,\n            smooth=self.smooth,\n        )\n\n    def __eq__(self, other):\n        if not isinstance(other, QuadraticBezier):", "            self.end,\n            relative=self.relative,\n        )\n\n    def __eq__(self, other):\n        if not isinstance(other, QuadraticBezier):"))
@@ -161,3 +161,13 @@ M("subpath-reverse-close-end", ["C16"], "closed subpath: close not re-targeted a
 M("path-reverse-subpath-order", ["C16"], "reversed subpaths re-assembled in the original order", ("        for subpath in reversed(subpaths):\n            p += subpath", "        for subpath in subpaths:\n            p += subpath"))
 M("as-subpaths-close-window", ["C16"], "subpath window after a close starts one late", ("            if isinstance(seg, Close):\n                yield Subpath(self, start, current)\n                start = current + 1", "            if isinstance(seg, Close):\n                yield Subpath(self, start, current)\n                start = current + 2"))
 M("reverse-prefer-second-dropped", ["C16"], "view reversal re-links the neighbour with the wrong authority", ("        self._path._validate_connection(start - 1, prefer_second=True)", "        self._path._validate_connection(start - 1)"))
+
+# ---- d() round trip (C07) --------------------------------------------------------------------------------
+M("point-str-six-digits", ["C07"], "coordinates written with 6 significant digits", ('            x_str = "%.12G" % self.x', '            x_str = "%.6G" % self.x'))
+M("point-str-strips-exponent", ["C07"], "exponent zeros stripped again", ('        y_str = "%.12G" % self.y\n        return "%s,%s" % (x_str, y_str)', '        y_str = "%.12G" % self.y\n        if "." in y_str:\n            y_str = y_str.rstrip("0").rstrip(".")\n        return "%s,%s" % (x_str, y_str)'))
+M("arc-d-large-flag-ge", ["C07"], "large-arc flag uses >=", ("                int(abs(self.sweep) > (tau / 2.0)),\n                int(self.sweep >= 0),\n                self.end,", "                int(abs(self.sweep) >= (tau / 4.0)),\n                int(self.sweep >= 0),\n                self.end,"))
+M("arc-d-sweep-flag-inverted-relative", ["C07"], "relative arcs written with the opposite sweep flag", ("                int(self.sweep >= 0),\n                self.end - current_point,", "                int(self.sweep < 0),\n                self.end - current_point,"))
+M("svgd-relative-current-point-stale", ["C07"], "relative output: current point not advanced after a close", ("                previous_segment = segment\n                p = previous_segment.end\n        else:", "                previous_segment = segment\n                if not isinstance(segment, Close):\n                    p = previous_segment.end\n        else:"))
+M("cubic-d-smooth-writes-control1", ["C07"], "S written with control1", ('                return "S %s %s" % (self.control2, self.end)', '                return "S %s %s" % (self.control1, self.end)'))
+M("quad-smooth-after-cubic", ["C07"], "T considered smooth after a cubic whose control2 it reflects", ("        if isinstance(previous, QuadraticBezier):\n            return self.start == previous.end and (self.control - self.start) == (\n                previous.end - previous.control\n            )", "        if isinstance(previous, (QuadraticBezier, CubicBezier)):\n            pc = previous.control if isinstance(previous, QuadraticBezier) else previous.control2\n            return self.start == previous.end and (self.control - self.start) == (\n                previous.end - pc\n            )"))
+M("smooth-test-ignores-start", ["C07"], "smooth test no longer requires the control to reflect", ("            return self.start == previous.end and (self.control1 - self.start) == (\n                previous.end - previous.control2\n            )", "            return self.start == previous.end"))
